@@ -9,10 +9,19 @@ from __future__ import annotations
 import copy
 from typing import Any, Callable, Dict, List, Optional
 
+from . import isolate
 from .core import replay_trace
 
 
 def _fails(engine, trace, ops, known, focus, want_key) -> Optional[List[Dict[str, Any]]]:
+    """One candidate execution, in a forked child: candidates must not influence each other through process state."""
+    try:
+        return isolate.call(_fails_here, engine, trace, ops, known, focus, want_key, timeout=240)
+    except isolate.ChildDied:
+        return None
+
+
+def _fails_here(engine, trace, ops, known, focus, want_key) -> Optional[List[Dict[str, Any]]]:
     r = replay_trace(engine, trace, known=known, focus=focus, ops=ops)
     if r.error is not None:
         return None
